@@ -23,13 +23,26 @@ pub struct SchemeSpec {
     /// (type, kind 'a' always | 'n' never | 's' sets)
     pub lists: Vec<(Type, char)>,
     pub nil_ne: bool,
+    /// how the scheme is built (part of the `scheme` line, so every case replays the same way):
+    /// bit 0: `SchemeBuilder::default()` instead of `::new()`; bit 1: rely on the documented
+    /// default of the nil-not-equal behaviour (`true`) instead of stating it
+    pub route: u8,
     pub max_depth: u16,
     pub star_limit: Option<usize>,
 }
 
 impl SchemeSpec {
+    /// The public API offers two ways to obtain a builder (`SchemeBuilder::new()` and the
+    /// `Default` impl, which is what the C API's `wirefilter_create_scheme_builder` uses) and the
+    /// nil-not-equal behaviour has a documented default (`true`): all four combinations of
+    /// (constructor) x (state the behaviour explicitly | rely on the default when it is the
+    /// default) are exercised (`route`).
     pub fn build(&self) -> Scheme {
-        let mut b = SchemeBuilder::new();
+        self.build_via(self.route & 1 == 0, self.route & 2 == 0)
+    }
+
+    pub fn build_via(&self, via_new: bool, explicit_nil_ne: bool) -> Scheme {
+        let mut b = if via_new { SchemeBuilder::new() } else { SchemeBuilder::default() };
         for f in &self.fields {
             if f.optional {
                 b.add_optional_field(&f.name, f.ty).unwrap();
@@ -53,7 +66,9 @@ impl SchemeSpec {
                 _ => b.add_list(*ty, funcs::SetsList).unwrap(),
             }
         }
-        b.set_nil_not_equal_behavior(self.nil_ne);
+        if explicit_nil_ne || !self.nil_ne {
+            b.set_nil_not_equal_behavior(self.nil_ne);
+        }
         b.build()
     }
 
@@ -89,7 +104,7 @@ impl SchemeSpec {
         let join = |v: Vec<String>| if v.is_empty() { ".".to_string() } else { v.join(",") };
         format!(
             "scheme {} {} {} {} {} {}",
-            if self.nil_ne { 1 } else { 0 },
+            format!("{}{}", if self.nil_ne { 1 } else { 0 }, ["", "a", "b", "c"][(self.route & 3) as usize]),
             self.max_depth,
             self.star_limit.map_or("-".to_string(), |l| l.to_string()),
             join(self
